@@ -360,7 +360,8 @@ theorem step_mu_le (s : S) (a : Actor) (he : EnvDone s) (hw : TermWF s) : mu (st
     · simp [step, hp]
     · have hs : step s .err = { s with err := (readerStep s.readSize s.err s.errPc s.capErr).1,
                                        errPc := (readerStep s.readSize s.err s.errPc s.capErr).2.1,
-                                       capErr := (readerStep s.readSize s.err s.errPc s.capErr).2.2 } := by
+                                       capErr := (readerStep s.readSize s.err s.errPc s.capErr).2.2,
+                                       mirErr := mirrorOf s.hideErr s.mirErr s.capErr (readerStep s.readSize s.err s.errPc s.capErr).2.2 } := by
         simp [step, hp]
       have h := readerStep_le s.readSize s.err s.errPc s.capErr
       have e1 : muM (step s .err) = muM s := by rw [hs]; rfl
@@ -427,7 +428,8 @@ theorem step_mu_lt (s : S) (a : Actor) (he : EnvDone s) (hw : TermWF s) (hen : E
     obtain ⟨hp, hr⟩ := hen
     have hs : step s .err = { s with err := (readerStep s.readSize s.err s.errPc s.capErr).1,
                                      errPc := (readerStep s.readSize s.err s.errPc s.capErr).2.1,
-                                     capErr := (readerStep s.readSize s.err s.errPc s.capErr).2.2 } := by
+                                     capErr := (readerStep s.readSize s.err s.errPc s.capErr).2.2,
+                                       mirErr := mirrorOf s.hideErr s.mirErr s.capErr (readerStep s.readSize s.err s.errPc s.capErr).2.2 } := by
       simp [step, hp]
     have h := readerStep_lt s.readSize he.readPos s.err s.errPc s.capErr hr he.errClosed
     have e1 : muM (step s .err) = muM s := by rw [hs]; rfl
